@@ -36,9 +36,11 @@ def run(rep):
     rep.run(search, MM, "MCSMatcher._search_subgraphs", 1, 2)
     rep.run(search, MT, "MCSMatcher.find_common_subgraph", 1, 2)
     for rel in (MM, MT):
-        invert(rep, rel)
-        mcs_mol(rep, rel)
+        rep.run(invert, rel)
+        rep.run(mcs_mol, rel)
     rep.run(edge_match)
+    rep.run(label_lists)
+    rep.run(shared_bookkeeping)
     rep.run(orientation)
 
 
@@ -325,3 +327,57 @@ MUTANTS = [
 TWINS = [
     dict(name="size loop via reversed(range())", file=MM, old="        for k in range(max_k, 0, -1):", new="        for k in reversed(range(1, max_k + 1)):"),
 ]
+
+
+# ------------------------------------------------------------------ the node predicate compares EVERY selected label
+def label_lists(rep):
+    """networkx.generic_node_match(names, defaults, ops) zips its three lists: a shorter `defaults` or `ops` silently drops the
+    remaining labels from the comparison (atoms that differ in charge or hcount are then paired).  Every list handed to it must be
+    length-linked to the list of names."""
+    for rel in (MM, MT):
+        fi = rep.f(rel, "MCSMatcher.__init__")
+        defs = local_defs(fi.node)
+        calls = [c for c in walk_local(fi.node) if isinstance(c, ast.Call) and call_name(c) == "generic_node_match"]
+        rep.need("R13", len(calls), 1, f"generic_node_match(...) in {rel}")
+        c = calls[0]
+        if len(c.args) != 3 or not isinstance(c.args[0], ast.Name):
+            rep.ob("O12.1", "R13", fi, None, c, "generic_node_match call shape not recognised", node=c)
+            continue
+        names = c.args[0].id
+
+        def linked(e):
+            """is the value of e a list with exactly one entry per name?"""
+            if pmatch(f"[$$x] * len({names})", e) is not None or pmatch(f"len({names}) * [$$x]", e) is not None:
+                return True
+            if isinstance(e, ast.ListComp) and len(e.generators) == 1 and norm(e.generators[0].iter) == names and not e.generators[0].ifs:
+                return True
+            return False
+        for pos, what in ((1, "defaults"), (2, "comparison operators")):
+            a = c.args[pos]
+            if isinstance(a, ast.Name):
+                binds = [d_ for d_ in defs.get(a.id, []) if d_.kind == "assign"]
+                bad = [d_ for d_ in binds if not linked(d_.value)]
+                is_param = any(d_.kind == "param" for d_ in defs.get(a.id, []))
+                ok = not bad and (bool(binds) or is_param)
+                rep.ob("O12.1", "R13", fi, ok, alpha(bad[0].stmt, fi.node) if bad else f"{what}: one entry per selected label",
+                       f"the list of {what} given to generic_node_match has one entry per selected label (a shorter list makes zip() drop the remaining labels from the comparison)",
+                       node=bad[0].stmt if bad else c)
+            else:
+                rep.ob("O12.1", "R13", fi, linked(a), alpha(a, fi.node),
+                       f"the list of {what} given to generic_node_match has one entry per selected label (a shorter list makes zip() drop the remaining labels from the comparison)", node=c)
+
+
+def shared_bookkeeping(rep):
+    """bookkeeping containers handed to helpers must really be shared (injectivity of the component assignment rests on them)"""
+    from ..rules.falsy_default import sites
+    ss = sites(rep.repo, (MM, MT))
+    n = 0
+    for fi, st, p, relying in ss:
+        for caller, c in relying:
+            n += 1
+            rep.ob("O12.1", "R9", fi, False, alpha(st, fi.node),
+                   f"`{p} = {p} or <fresh container>` replaces the caller's EMPTY container by a private one: {caller.qual} passes its own container and relies on it being "
+                   "filled (components / atoms already used), so nothing is ever recorded and the same target is assigned twice (the mapping is no longer injective)", node=st)
+    if n == 0:
+        rep.ob("O12.1", "R9", f"{MM}:MCSMatcher", True, f"{len(ss)} `p = p or <container>` rebinding(s), none relied upon by a caller",
+               "bookkeeping containers passed to helpers are shared with the caller")
